@@ -318,6 +318,11 @@ BOUNDARY_TS = [  # (local clock us since 0001-01-01, offset minutes)
     (EPOCH_US + 951782400 * US_PER_SEC, 0), (EPOCH_US + 4107542400 * US_PER_SEC + 1, 60),
 ] + [(EPOCH_US + 1577836800 * US_PER_SEC + f, 0) for f in (10, 100, 1000, 10**4, 10**5, 9, 90, 900, 9000, 900000, 123400, 120000, 100100, 999900, 999990)] + [
     (EPOCH_US - 2 * US_PER_SEC + 100, 0), (EPOCH_US - 2 * US_PER_SEC + 123400, 120),
+] + [
+    # every width of the year: 0009/0010, 0099/0100, 0999/1000 (text formatting of the year is C code)
+    ((_dt.datetime(y, mo, d, h, mi, sec, us) - _dt.datetime(1, 1, 1)) // _dt.timedelta(microseconds=1), off)
+    for (y, mo, d, h, mi, sec, us, off) in ((9, 12, 31, 23, 59, 59, 999999, 0), (10, 1, 1, 0, 0, 0, 0, 0), (99, 12, 31, 23, 59, 59, 0, 0), (100, 1, 1, 0, 0, 0, 1000, 0),
+                                            (999, 12, 31, 23, 59, 59, 0, 0), (1000, 1, 1, 0, 0, 0, 0, 0), (1000, 1, 1, 0, 30, 0, 0, 60))
 ]  # fmt: skip
 
 
